@@ -37,6 +37,7 @@ type UnitResult struct {
 	Pos         string
 	HasContract bool
 	StaleCallSites []string
+	UsedContracts []string // in-repo contracts applied at call sites of this unit
 	ModelTerms  []ModelTerm // entry-state terms worth printing from a counterexample
 }
 
@@ -65,6 +66,43 @@ func (w *World) UnitsFor(prop string) []*Unit {
 	}
 	return out
 }
+
+// UnitByKey returns the verification unit of an in-repo function under a (non-trusted) contract, or nil when the key is
+// an interface method, an external or trusted contract, or a function without body.
+func (w *World) UnitByKey(key string) *Unit {
+	fs := w.Contracts[key]
+	if fs == nil || fs.External || fs.Trusted != "" {
+		return nil
+	}
+	fn := w.funcByKey[key]
+	if fn == nil || fn.Blocks == nil {
+		return nil
+	}
+	return &Unit{Name: shortKey(key), Key: key, Fn: fn, Spec: fs}
+}
+
+// ContractKind classifies a contract key for the evidence: "interface-model" (contract of an interface method, a model
+// that in-repo implementations are assumed to satisfy), "trusted", "external", "verified" (has a body and a unit) or "".
+func (w *World) ContractKind(key string) string {
+	fs := w.Contracts[key]
+	switch {
+	case fs == nil:
+		return ""
+	case fs.External:
+		return "external"
+	case fs.Trusted != "":
+		return "trusted"
+	case w.isInterfaceMethodKey(key):
+		return "interface-model"
+	}
+	if fn := w.funcByKey[key]; fn != nil && fn.Blocks != nil {
+		return "verified"
+	}
+	return "no-body"
+}
+
+// ShortKey abbreviates a canonical function key the way unit names do.
+func ShortKey(key string) string { return shortKey(key) }
 
 // SweepUnits lists every function of the given module-relative files that has a body, contract or not.
 func (w *World) SweepUnits(files []string) []*Unit {
@@ -200,6 +238,10 @@ func (w *World) VerifyWith(u *Unit, classes map[string][]string) (res *UnitResul
 			res.Trusted = append(res.Trusted, k)
 		}
 		sort.Strings(res.Trusted)
+		for k := range e.contractsUsed {
+			res.UsedContracts = append(res.UsedContracts, k)
+		}
+		sort.Strings(res.UsedContracts)
 		res.Paths = e.paths
 	}()
 	x := &exec{e: e, unitFn: u.Fn, unit: u, siteOrd: map[string]map[ssa.Instruction]int{}, loopsOf: map[*ssa.Function]*loopInfo{},
